@@ -116,3 +116,14 @@ fn test_root() {
     assert_eq!(dsu.root(3), common);
     assert_eq!(dsu.root(4), 4);
 }
+
+// verification-only hooks (see /verif); compiled only under the guard cfg
+#[cfg(oxfordcontrol_clarabel_rs_verif)]
+pub(crate) mod verif_hooks_dsu {
+    pub(crate) fn root(d: &mut super::DisjointSetUnion, x: usize) -> usize {
+        d.root(x)
+    }
+    pub(crate) fn parents(d: &super::DisjointSetUnion) -> &[usize] {
+        &d.parents
+    }
+}
